@@ -257,7 +257,7 @@ PLANS["C11"] = {
         shards("udp_swarm", "udp_swarm", 4, ["--histories", "100000000", "--budget_s", "100"]) + shards("http_swarm", "http_swarm", 4, ["--histories", "100000000", "--budget_s", "100"]) + shards("ws_swarm", "ws_swarm", 4, ["--histories", "100000000", "--budget_s", "100"])),
     "min_evaluations": {"quick": 200000, "thorough": 1000000},
     "assumptions": ["a line is well-formed iff, after trimming, it is 40 hex digits"],
-    "level_text": "Exploration with enumerated reload faults: sequences of reloads of generated list files (valid in every spelling, a bad line at any position, missing, directory, non-UTF-8) through the real update_access_list while caches created earlier keep answering; after every reload all probe hashes are queried in all modes through both access paths and must follow the list in force (the previous one after a failed reload). On the storages, histories with list reloads and cleans check that the next clean removes exactly the forbidden torrents.",
+    "level_text": "Exploration with enumerated reload faults: sequences of reloads of generated list files (valid in every spelling, a bad line at any position, missing, directory, non-UTF-8) through the real update_access_list while caches created earlier keep answering; after every reload all probe hashes are queried in all modes through both access paths and must follow the list in force (the previous one after a failed reload). On the storages, histories with list reloads and cleans check that the next clean removes exactly the forbidden torrents. Live trackers (udp, http, ws): start-up list, SIGUSR1 reloads (good, malformed, missing, a second good one), announces on fresh connections and on client sessions that predate the reload (ws connections re-announcing, one http kept-alive connection), state read back by scrapes before and after cleaning passes.",
     "level_note": "Trusted: reference list parser; the announce-time gate itself lives in the socket workers and is decided by the live engines.",
     "design_ref": "3/C11",
 }
@@ -395,7 +395,7 @@ PLANS["C18"] = {
     "steps": lambda tier, seed: c18_steps(tier),
     "min_evaluations": {"quick": 20, "thorough": 100},
     "assumptions": ["counter widths beyond what this machine can populate (millions of peers) are extrapolated, not observed", "one client address announcing N ports stands for N peers"],
-    "level_text": "Exploration over configurations: UDP (mio and io_uring) with max_response_peers at the defaults and on both sides of the 8192-byte boundary for each family, max_scrape_torrents 70 and 255, announces followed by 300 extension bytes; HTTP with max_peers at the default and around the former 4096-byte boundary for each family, scrapes of 1..65 hashes (65 minimal-length hashes are what fits the 2048-byte request buffer) with 1- to 3-digit counters. A configuration must either be refused by run() or deliver the worst-case reply whole.",
+    "level_text": "Exploration over configurations: UDP (mio and io_uring) with max_response_peers at the defaults and on both sides of the 8192-byte boundary for each family, max_scrape_torrents 70 and 255 (scrapes of exactly the limit and of limit+1 .. 400 hashes, which the parser accepts and cuts), announces followed by 300 extension bytes; HTTP with max_peers at the default and around the former 4096-byte boundary for each family, scrapes of 1..65 hashes (65 minimal-length hashes are what fits the 2048-byte request buffer) with 1- to 3-digit counters. A configuration must either be refused by run() or deliver the worst-case reply whole.",
     "level_note": "Trusted: the wire decoders of the harness; start-up refusal is observed as run() returning an error before the first request.",
     "design_ref": "3/C18",
 }
@@ -494,7 +494,7 @@ PLANS["C19"] = {
     "min_evaluations": {"quick": 30, "thorough": 150},
     "assumptions": ["this is the one property whose statement is a wall-clock bound; scenarios run a few at a time and a scenario whose probe never fired is inconclusive",
                     "a worker 'stops' where its thread ends: sub-tasks of a glommio worker that end without ending the worker are not worker deaths"],
-    "level_text": "Fault enumeration: for udp (mio and io_uring), http and ws, every worker kind (socket i of n, swarm i of n, cleaning, statistics, signals, prometheus) is made to fail by a panic in its loop, a panic inside a detached per-connection task, an early return Ok or Err, a socket bind failure (non-local address) or a prometheus bind failure (port in use), at the first iteration or after serving requests, with 1-3 workers of the kind (42 scenarios quick, about 190 thorough); each scenario records when the fault fired and when run() returned.",
+    "level_text": "Fault enumeration: for udp (mio and io_uring), http and ws, every worker kind (socket i of n, swarm i of n, cleaning, statistics, signals, prometheus) is made to fail by a panic in its loop, a panic inside a detached per-connection task, an early return Ok or Err, a socket bind failure (non-local address) or a prometheus bind failure (port in use), at the first iteration, after serving requests, after 17-80 s of uptime under traffic, or after serving requests while served client connections are still open (one of them busy), with 1-3 workers of the kind (49 scenarios quick, about 210 thorough); each scenario records when the fault fired and when run() returned.",
     "level_note": "Trusted: the probe handler (fires once, only in the targeted thread), the child-process clock.",
     "design_ref": "3/C19",
 }
